@@ -68,6 +68,13 @@ def arr(m):
     return a
 
 
+def vec(m):
+    """first row of m as a 1-D array of its own (the object handed to the constructor, not a view of something else)"""
+    a = np.array([float(frac(x)) for x in m[0]], dtype=float)
+    GIVEN.append((a, a.tobytes()))
+    return a
+
+
 def given_arrays_changed():
     return [i for i, (a, b) in enumerate(GIVEN) if a.tobytes() != b]
 
@@ -84,7 +91,7 @@ def build_leaf(name):
     if c in ("ScaledIdentityMatrix", "PositiveScaledIdentityMatrix"):
         return getattr(M, c)(float(frac(l["scalar"])), l["size"])
     if c in ("DiagonalMatrix", "PositiveDiagonalMatrix"):
-        return getattr(M, c)(arr(l["p1"])[0])
+        return getattr(M, c)(vec(l["p1"]))
     if c in ("TriangularMatrix", "InverseTriangularMatrix"):
         return getattr(M, c)(arr(l["p1"]), lower=l["lower"])
     if c in ("TriangularFactoredDefiniteMatrix", "TriangularFactoredPositiveDefiniteMatrix") and l.get("factor_obj") == "TriangularMatrix":
@@ -130,7 +137,7 @@ def build_leaf(name):
     if c == "ScaledOrthogonalMatrix":
         return M.ScaledOrthogonalMatrix(float(frac(l["scalar"])), arr(l["p1"]))
     if c in ("EigendecomposedSymmetricMatrix", "EigendecomposedPositiveDefiniteMatrix"):
-        return getattr(M, c)(arr(l["p1"]), arr(l["p2"])[0])
+        return getattr(M, c)(arr(l["p1"]), vec(l["p2"]))
     if c in ("SquareBlockDiagonalMatrix", "SymmetricBlockDiagonalMatrix", "PositiveDefiniteBlockDiagonalMatrix",
              "BlockRowMatrix", "BlockColumnMatrix"):
         return getattr(M, c)(tuple(build_leaf(s) for s in l["subs"]))
@@ -536,6 +543,20 @@ def check_value_semantics():
                 add(f"C19:{cls}:equal-but-different-arrays", f"{name}: equal objects have different dense arrays", rp)
         except Exception as e:  # noqa: BLE001
             add(f"C19:{cls}:eq-hash-exception:{type(e).__name__}", f"{name}: ==/hash raised {e}", rp)
+        if order == "F":
+            # the same numbers handed over row-major: memory layout is not a parameter
+            ORDER[0] = "C"
+            a_c = build_leaf(name)
+            ORDER[0] = "F"
+            try:
+                if not (a == a_c) or not (a_c == a):
+                    add(f"C19:{cls}:equal-parameters-not-equal:layout", f"{name}: objects built from the same numbers in row-major and "
+                        f"column-major arrays compare unequal", rp)
+                elif hash(a) != hash(a_c) or len({a, a_c}) != 1:
+                    add(f"C19:{cls}:equal-parameters-hash-differs:layout", f"{name}: objects built from the same numbers in row-major and "
+                        f"column-major arrays compare equal but hash differently (a set keeps both)", rp)
+            except Exception as e:  # noqa: BLE001
+                add(f"C19:{cls}:eq-hash-exception:{type(e).__name__}", f"{name}: ==/hash across layouts raised {e}", rp)
         for how, cp in (("copy", copy.copy), ("deepcopy", copy.deepcopy), ("pickle", lambda o: pickle.loads(pickle.dumps(o)))):
             try:
                 c2 = cp(a)
@@ -554,6 +575,27 @@ def check_value_semantics():
         for k, pa in param_arrays(build_leaf(name)):
             if pa.flags.writeable and pa.size:
                 add(f"C19:{cls}:parameter-writable:{k}", f"{name}: array {k} held since construction can be modified in place", rp)
+        # ... nor through the reference the caller still holds: a later in-place write to an array that was handed
+        # to the constructor either fails (the array was frozen) or does not reach the matrix (it was copied)
+        GIVEN.clear()
+        o2 = build_leaf(name)
+        try:
+            probe = np.arange(1.0, o2.shape[1] + 1.0)
+            y0 = np.array(o2 @ probe)
+            wrote = []
+            for idx, (arr, _) in enumerate(GIVEN):
+                if arr.size and arr.dtype.kind == "f":
+                    try:
+                        arr += 1.0
+                        wrote.append(idx)
+                    except ValueError:
+                        pass  # read-only: fine
+            if wrote and not np.array_equal(np.array(o2 @ probe), y0):
+                add(f"C19:{cls}:parameter-modified-through-caller-array",
+                    f"{name}: an in-place write to the array the caller passed to the constructor (argument array #{wrote[0]}) succeeded "
+                    f"and changed the matrix (its product with a fixed vector differs)", rp)
+        except Exception as e:  # noqa: BLE001
+            add(f"C19:{cls}:caller-write-probe-exception:{type(e).__name__}", f"{name}: product after a caller-side write raised {e}", rp)
         # operations leave operands and caller arrays untouched
         GIVEN.clear()
         obj = build_leaf(name)
